@@ -125,11 +125,22 @@ func pickStrategy(t *Tapes) Strategy {
 	}
 }
 
-func (st *Strategy) newPrio(s *Sim) float64 {
+// newPrio derives a goroutine's PCT priority from the seed and the
+// goroutine's (deterministic) id, not from a shared random stream: goroutines
+// can be registered from two threads at once in a wake window, and the order
+// of draws from a shared stream would then depend on real timing.
+func (st *Strategy) newPrio(s *Sim, id string) float64 {
 	if s.Tapes.Sched.Replaying() {
 		return 0
 	}
-	return 1 + s.Tapes.srng.Float64()
+	h := s.Tapes.Seed*0x9e3779b97f4a7c15 + 0x632be59bd9b4e019
+	for i := 0; i < len(id); i++ {
+		h = (h ^ uint64(id[i])) * 1099511628211
+	}
+	h ^= h >> 29
+	h *= 0xbf58476d1ce4e5b9
+	h ^= h >> 32
+	return 1 + float64(h>>11)/float64(1<<53)
 }
 
 func (st *Strategy) pick(s *Sim, ready []*G) int {
